@@ -425,3 +425,265 @@ Proof.
   intros pat ell se t Hell Hok Hvar Hexp Hnd Hd1.
   exact (expand_sound_section ell pat se Hell Hvar Hexp Hnd Hd1 t Hok).
 Qed.
+
+(* ======================================================================
+   Part 2: the whole pipeline on the supported fragment.
+   [pshape]: the pattern variables of an S_pat pattern in order, each with the flag
+   "directly followed by the ellipsis".  Pattern::build records exactly these
+   ([build_shape]) and the specification's matcher binds exactly these, the flagged ones
+   to a sequence of forms, the others to a form ([smatch_shape]).
+   ====================================================================== *)
+Lemma bind_ok : forall A B (x : out A) (f : A -> out B) b,
+  bind x f = Ok b -> exists a, x = Ok a /\ f a = Ok b.
+Proof. intros A B [a|e|s|] f b H; simpl in H; try discriminate. eauto. Qed.
+
+Section Shape.
+Variable lits : list cell.
+Variable ell : cell.
+Hypothesis Hell : is_symbol ell = true.
+
+Fixpoint pshape (p : cell) {struct p} : list (cell * bool) :=
+  match p with
+  | CPair a d =>
+      match d with
+      | CPair e d' =>
+          if s_is_ell ell e then (a, true) :: pshape d'
+          else match a with
+               | CPair _ _ => pshape a
+               | CSym _ => if f_is_var lits ell a then [(a, false)] else []
+               | _ => []
+               end ++ pshape d
+      | _ => match a with
+             | CPair _ _ => pshape a
+             | CSym _ => if f_is_var lits ell a then [(a, false)] else []
+             | _ => []
+             end ++ pshape d
+      end
+  | _ => []
+  end.
+
+Definition eshape (a : cell) : list (cell * bool) :=
+  match a with
+  | CPair _ _ => pshape a
+  | CSym _ => if f_is_var lits ell a then [(a, false)] else []
+  | _ => []
+  end.
+
+Lemma pshape_plain : forall a d, starts_with_ell ell d = false ->
+  pshape (CPair a d) = eshape a ++ pshape d.
+Proof.
+  intros a d H. destruct d; try reflexivity. simpl in H. cbn [pshape]. rewrite H. reflexivity.
+Qed.
+
+Lemma pshape_ell : forall a e d', s_is_ell ell e = true ->
+  pshape (CPair a (CPair e d')) = (a, true) :: pshape d'.
+Proof. intros a e d' H. cbn [pshape]. rewrite H. reflexivity. Qed.
+
+(* ---- the specification's matcher *)
+Definition bshape (b : binding) (fl : bool) : Prop :=
+  if fl then exists fs, b = BMany (map BOne fs) else exists c, b = BOne c.
+Definition shape_rel (kb : cell * binding) (vb : cell * bool) : Prop :=
+  fst kb = fst vb /\ bshape (snd kb) (snd vb).
+
+Lemma smatch_shape : forall pd seen ud se, pat_ok lits ell seen pd = true ->
+  smatch lits ell pd ud = Some se -> Forall2 shape_rel se (pshape pd).
+Proof.
+  induction pd as [pd IH] using cell_size_ind. intros seen ud se Hp Hm.
+  destruct pd as [| | | |a d| | | | | | | |]; try (simpl in Hp; discriminate).
+  - cbn [smatch] in Hm. destruct (cell_eqb CNil ud); inversion Hm. constructor.
+  - destruct (starts_with_ell ell d) eqn:Es.
+    + destruct d as [| | | |e d'| | | | | | | |]; simpl in Es; try discriminate.
+      destruct (pat_ok_ell lits ell _ _ _ _ Es Hp) as (_ & Hv & Hd).
+      rewrite (smatch_ell lits ell a e d' ud Es) in Hm. cbv zeta in Hm.
+      destruct (Nat.ltb (chain_len ud) (chain_len d')); [discriminate|].
+      destruct (split_chain (chain_len ud - chain_len d') ud) as [[items frest]|]; [|discriminate].
+      rewrite (all_some_var lits ell a items Hv) in Hm.
+      rewrite (pvars_var lits ell a Hv) in Hm.
+      destruct (var_facts lits ell a Hv) as (Hsa & _).
+      rewrite (collect_var a items Hsa) in Hm.
+      destruct (smatch lits ell d' frest) as [s2|] eqn:E2; simpl in Hm; inversion Hm; subst se.
+      rewrite (pshape_ell a e d' Es). constructor.
+      * split; simpl; eauto.
+      * eapply IH; [|exact Hd|exact E2]. simpl. lia.
+    + destruct (pat_ok_plain lits ell _ _ _ Es Hp) as [Ha Hd].
+      rewrite (smatch_plain lits ell a d ud Es) in Hm.
+      destruct ud as [| | | |f1 fr| | | | | | | |]; try discriminate.
+      destruct (smatch lits ell a f1) as [s1|] eqn:E1; [|discriminate].
+      destruct (smatch lits ell d fr) as [s2|] eqn:E2; simpl in Hm; inversion Hm; subst se.
+      rewrite (pshape_plain a d Es). apply Forall2_app.
+      * destruct a as [| | | |a1 a2| |s| | | | | |]; try (simpl in Ha; discriminate);
+          try (cbn [smatch] in E1; destruct (cell_eqb _ f1); inversion E1; constructor).
+        -- eapply IH; [|exact Ha|exact E1]. simpl. lia.
+        -- cbn [smatch] in E1. cbn [eshape]. unfold f_is_var. cbn [is_symbol andb].
+           unfold elem_ok in Ha. rewrite Ha.
+           destruct (s_is_lit lits (CSym s)); cbn [negb andb].
+           ++ destruct (cell_eqb (CSym s) f1); inversion E1; constructor.
+           ++ destruct (s_is_under (CSym s)); cbn [negb andb]; inversion E1; constructor; [|constructor].
+              split; simpl; eauto.
+      * eapply IH; [|exact Hd|exact E2]. simpl. lia.
+Qed.
+End Shape.
+
+(* ---- Pattern::build on S_pat *)
+Definition vmem (x : cell) (sh : list (cell * bool)) : bool :=
+  existsb (fun vb => cell_eqb (fst vb) x) sh.
+Definition emem (x : cell) (sh : list (cell * bool)) : bool :=
+  existsb (fun vb => snd vb && cell_eqb (fst vb) x) sh.
+
+Section BuildShape.
+Variable lits : list cell.
+Variable ell : cell.
+Hypothesis Hell : is_symbol ell = true.
+
+Definition cfg_ok (p : pattern) : Prop :=
+  p_ellipsis p = ell /\ p_literals p = lits /\ p_underscore p = UNDERSCORE.
+
+(* what a run of build over a pattern of shape [sh] does to the record *)
+Definition post (sh : list (cell * bool)) (p p' : pattern) : Prop :=
+  cfg_ok p' /\ p_expr p' = p_expr p /\
+  (forall x, is_variable p' x = is_variable p x || vmem x sh) /\
+  (forall x, is_expanded_variable p' x = is_expanded_variable p x || emem x sh).
+
+Lemma post_nil : forall p, cfg_ok p -> post [] p p.
+Proof. intros p H. repeat split; try apply H; intros; simpl; rewrite orb_false_r; reflexivity. Qed.
+
+Lemma post_app : forall s1 s2 p p1 p2, post s1 p p1 -> post s2 p1 p2 -> post (s1 ++ s2) p p2.
+Proof.
+  intros s1 s2 p p1 p2 (C1 & X1 & V1 & E1) (C2 & X2 & V2 & E2).
+  split; [exact C2|]. split; [congruence|]. split; intros x.
+  - rewrite V2, V1. unfold vmem. rewrite existsb_app, orb_assoc. reflexivity.
+  - rewrite E2, E1. unfold emem. rewrite existsb_app, orb_assoc. reflexivity.
+Qed.
+
+Lemma cand_cfg : forall p c, cfg_ok p -> is_variable_candidate p c = f_is_var lits ell c.
+Proof.
+  intros p c (H1 & H2 & H3). unfold is_variable_candidate, f_is_var, is_literal, is_ellipsis, s_is_lit, s_is_ell, s_is_under.
+  rewrite H1, H2, H3. reflexivity.
+Qed.
+
+Lemma is_ell_cfg : forall p c, cfg_ok p -> is_ellipsis p c = s_is_ell ell c.
+Proof. intros p c (H1 & _). unfold is_ellipsis, s_is_ell. rewrite H1. reflexivity. Qed.
+
+Lemma enext_cfg : forall p d, cfg_ok p -> ellipsis_next p d = match peek_cell d with Some c => s_is_ell ell c | None => false end.
+Proof. intros p d H. unfold ellipsis_next. destruct (peek_cell d); auto. apply is_ell_cfg. exact H. Qed.
+
+Lemma mem_cell_snoc : forall x l a, mem_cell x (l ++ [a]) = mem_cell x l || cell_eqb a x.
+Proof. intros. unfold mem_cell. rewrite existsb_app. simpl. rewrite orb_false_r. reflexivity. Qed.
+
+Lemma post_push_variable : forall p a, cfg_ok p -> post [(a, false)] p (push_variable p a).
+Proof.
+  intros p a H. split; [exact H|]. split; [reflexivity|]. split; intros x.
+  - unfold is_variable, push_variable, vmem. cbn [p_variables existsb fst]. rewrite mem_cell_snoc, orb_false_r. reflexivity.
+  - unfold emem. simpl. rewrite orb_false_r. reflexivity.
+Qed.
+
+(* find_expanded_variables on a pattern variable *)
+Lemma fev_var : forall p a, cfg_ok p -> f_is_var lits ell a = true ->
+  let p2 := find_expanded_variables a p in
+  cfg_ok p2 /\ p_expr p2 = p_expr p /\ p_variables p2 = p_variables p /\
+  forall x, is_expanded_variable p2 x = is_expanded_variable p x || cell_eqb a x.
+Proof.
+  intros p a H Hv. destruct (var_facts lits ell a Hv) as (Hs & _).
+  destruct a; try discriminate. cbn [find_expanded_variables]. rewrite (cand_cfg p _ H), Hv. cbn [andb].
+  destruct (mem_cell (CSym s) (p_expanded_variables p)) eqn:Em; cbn [negb].
+  - repeat split; try apply H. intros x. destruct (cell_eqb (CSym s) x) eqn:Ex.
+    + apply cell_eqb_sym_l in Ex. subst x. unfold is_expanded_variable. rewrite Em. reflexivity.
+    + rewrite orb_false_r. reflexivity.
+  - repeat split; try apply H. intros x. unfold is_expanded_variable, push_expanded. cbn [p_expanded_variables].
+    apply mem_cell_snoc.
+Qed.
+
+(* unfolding of the loop *)
+Lemma bl_nil : forall rec len imp idx ect p, build_loop rec len imp CNil idx ect p = Ok p.
+Proof. reflexivity. Qed.
+Lemma bl_sym : forall rec len imp s rest' idx ect p,
+  build_loop rec len imp (CPair (CSym s) rest') idx ect p =
+  (do (p1, ect1) <- build_symbol p (CSym s) idx len imp (ellipsis_next p rest') ect;
+   build_loop rec len imp rest' (idx + 1) ect1 p1).
+Proof. reflexivity. Qed.
+Lemma bl_pair : forall rec len imp x y rest' idx ect p,
+  build_loop rec len imp (CPair (CPair x y) rest') idx ect p =
+  (do p2 <- rec (CPair x y) (if ellipsis_next p rest' then find_expanded_variables (CPair x y) p else p);
+   build_loop rec len imp rest' (idx + 1) ect p2).
+Proof. reflexivity. Qed.
+Lemma bl_other : forall rec len imp it rest' idx ect p, is_symbol it = false -> is_pair it = false ->
+  build_loop rec len imp (CPair it rest') idx ect p = build_loop rec len imp rest' (idx + 1) ect p.
+Proof. intros. destruct it; try discriminate; reflexivity. Qed.
+
+Lemma build_loop_shape : forall (n : nat) rec len imp,
+  (forall q p p', (cell_size q < n)%nat -> pat_ok lits ell false q = true -> cfg_ok p ->
+     rec q p = Ok p' -> post (pshape lits ell q) p p') ->
+  forall rest seen idx ect p p', (cell_size rest <= n)%nat -> pat_ok lits ell seen rest = true -> cfg_ok p ->
+  build_loop rec len imp rest idx ect p = Ok p' -> post (pshape lits ell rest) p p'.
+Proof.
+  intros n rec len imp Hrec.
+  induction rest as [rest IH] using cell_size_ind. intros seen idx ect p p' Hsz Hp Hc Hb.
+  destruct rest as [| | | |a d| | | | | | | |]; try (simpl in Hp; discriminate).
+  - rewrite bl_nil in Hb. inversion Hb; subst p'. apply post_nil. exact Hc.
+  - destruct (starts_with_ell ell d) eqn:Es.
+    + (* a <ellipsis> . d' *)
+      destruct d as [| | | |e d'| | | | | | | |]; simpl in Es; try discriminate.
+      destruct (pat_ok_ell lits ell _ _ _ _ Es Hp) as (_ & Hv & Hd).
+      destruct (var_facts lits ell a Hv) as (Hsa & _ & Hnea & _).
+      pose proof (is_ell_sym ell Hell e Es) as Hse.
+      destruct a as [| | | | | |s| | | | | |]; try discriminate.
+      destruct e as [| | | | | |se| | | | | |]; try discriminate.
+      rewrite bl_sym in Hb. apply bind_ok in Hb. destruct Hb as ([p1 ect1] & Hb1 & Hb).
+      unfold build_symbol in Hb1. rewrite (is_ell_cfg p _ Hc), Hnea in Hb1.
+      rewrite (cand_cfg p _ Hc), Hv in Hb1.
+      rewrite (enext_cfg p _ Hc) in Hb1. cbn [peek_cell] in Hb1. rewrite Es in Hb1.
+      destruct (is_variable p (CSym s)) eqn:Evp; [discriminate|]. cbn [bind] in Hb1.
+      inversion Hb1; subst p1 ect1. clear Hb1.
+      pose proof (post_push_variable p (CSym s) Hc) as P1.
+      destruct (fev_var (push_variable p (CSym s)) (CSym s) (proj1 P1) Hv) as (C2 & X2 & V2 & E2).
+      set (p2 := find_expanded_variables (CSym s) (push_variable p (CSym s))) in *.
+      rewrite bl_sym in Hb. apply bind_ok in Hb. destruct Hb as ([p3 ect3] & Hb3 & Hb).
+      unfold build_symbol in Hb3. rewrite (is_ell_cfg p2 _ C2), Es in Hb3.
+      destruct ((idx + 1 =? 0) || (idx + 1 =? len - 1) && imp); [discriminate|].
+      destruct (1 <? ect + 1); [discriminate|]. inversion Hb3; subst p3 ect3. clear Hb3.
+      assert (P2 : post [(CSym s, true)] p p2).
+      { destruct P1 as (_ & X1 & V1 & E1). split; [exact C2|]. split; [congruence|]. split; intros x.
+        - unfold is_variable. rewrite V2. apply V1.
+        - rewrite E2. unfold emem. cbn [existsb fst snd andb]. rewrite orb_false_r.
+          reflexivity. }
+      rewrite (pshape_ell lits ell _ _ d' Es).
+      apply (post_app [(CSym s, true)] _ p p2 p'); [exact P2|].
+      eapply IH; [| |exact Hd|exact C2|exact Hb]; simpl in *; lia.
+    + (* a plain element *)
+      destruct (pat_ok_plain lits ell _ _ _ Es Hp) as [Ha Hd].
+      rewrite (pshape_plain lits ell a d Es).
+      assert (Hen : forall q, cfg_ok q -> ellipsis_next q d = false).
+      { intros q Hq. rewrite (enext_cfg q d Hq). destruct d; try (simpl in Hd; discriminate); auto. }
+      assert (Hrest : forall p1 idx1 ect1, cfg_ok p1 -> build_loop rec len imp d idx1 ect1 p1 = Ok p' ->
+                post (pshape lits ell d) p1 p').
+      { intros p1 idx1 ect1 C1 H1. eapply IH; [| |exact Hd|exact C1|exact H1]; simpl in *; lia. }
+      destruct a as [| | | |a1 a2| |s| | | | | |]; try (simpl in Ha; discriminate);
+        try (rewrite bl_other in Hb by reflexivity; cbn [eshape app]; eapply Hrest; eauto).
+      * (* nested list *)
+        rewrite bl_pair, (Hen p Hc) in Hb. apply bind_ok in Hb. destruct Hb as (p2 & Hb2 & Hb).
+        assert (P2 : post (pshape lits ell (CPair a1 a2)) p p2).
+        { apply Hrec; auto. simpl in *; lia. }
+        apply (post_app _ _ p p2 p'); [exact P2|]. eapply Hrest; [apply P2|exact Hb].
+      * (* identifier *)
+        rewrite bl_sym in Hb. apply bind_ok in Hb. destruct Hb as ([p1 ect1] & Hb1 & Hb).
+        unfold build_symbol in Hb1. unfold elem_ok in Ha. apply negb_true_iff in Ha.
+        rewrite (is_ell_cfg p _ Hc), Ha, (cand_cfg p _ Hc), (Hen p Hc) in Hb1.
+        cbn [eshape].
+        destruct (f_is_var lits ell (CSym s)) eqn:Ev.
+        -- destruct (is_variable p (CSym s)); [discriminate|]. cbn [bind] in Hb1.
+           inversion Hb1; subst p1 ect1.
+           pose proof (post_push_variable p (CSym s) Hc) as P1.
+           apply (post_app [(CSym s, false)] _ p (push_variable p (CSym s)) p'); [exact P1|]. eapply Hrest; [apply P1|exact Hb].
+        -- cbn [bind] in Hb1. inversion Hb1; subst p1 ect1. cbn [app]. eapply Hrest; eauto.
+Qed.
+
+Lemma build_shape : forall (n : nat) q p p', (cell_size q <= n)%nat -> pat_ok lits ell false q = true -> cfg_ok p ->
+  build q p = Ok p' -> post (pshape lits ell q) p p'.
+Proof.
+  induction n as [|n IHn]; intros q p p' Hsz Hq Hc Hb.
+  - destruct q; simpl in Hsz; lia.
+  - rewrite build_eq in Hb.
+    eapply (build_loop_shape (S n)); [| |exact Hq|exact Hc|exact Hb]; [|lia].
+    intros q' p1 p1' Hlt Hq' Hc1 Hb1. eapply IHn; eauto. lia.
+Qed.
+End BuildShape.
